@@ -12,6 +12,7 @@ mod dns;
 mod sni;
 mod sniff;
 mod eyeballs;
+mod timeout;
 
 use std::io::{BufRead, Write};
 
@@ -30,6 +31,7 @@ fn gen(stream: &str, seed: u64, n: u64) -> Vec<String> {
                 "sni" => sni::gen(&mut r, i),
                 "sniff" => sniff::gen(&mut r, i),
                 "eb" => eyeballs::gen(&mut r, i),
+                "to" => timeout::gen(&mut r, i),
                 _ => panic!("unknown stream {stream}"),
             };
             format!("{stream} {body}")
@@ -51,6 +53,7 @@ fn run_line(line: &str) -> String {
         "sni" => sni::run(&toks),
         "sniff" => sniff::run(&toks),
         "eb" => eyeballs::run(&toks),
+        "to" => timeout::run(&toks),
         _ => "unknown-stream".to_string(),
     };
     format!("{input} | {obs}")
